@@ -52,7 +52,7 @@ CANARIES = [
      "    with _tooling_lock:\n        if hasattr(fn, \"__ptera_stack__\"):\n            st = fn.__ptera_stack__\n        else:",
      "    if True:\n        if hasattr(fn, \"__ptera_stack__\"):\n            st = fn.__ptera_stack__\n        else:", "C08", "caught"),
     ("no-suspend", "ptera/overlay.py",
-     "        if not self.suspended:\n            self.suspended = True\n            HandlerCollection.current.set(self.outer)",
+     "        if not self.suspended:\n            self.suspended = True\n            self._give_back()",
      "        pass", "C09", "caught"),
     ("decl-not-forced", "ptera/transform.py",
      "force=value is None)", "force=False)", "C16", "caught"),
@@ -88,8 +88,8 @@ CANARIES = [
     # (first classed as behaviour-preserving; seeded change C05e showed it is not: a subscriber of a
     # total probe that fails while the call is wound up then leaves the inner collection installed)
     ("interactor-exit-first", "ptera/overlay.py",
-     "        if not self.suspended:\n            HandlerCollection.current.set(self.outer)\n        self.interactor.exit()",
-     "        self.interactor.exit()\n        if not self.suspended:\n            HandlerCollection.current.set(self.outer)",
+     "        if not self.suspended:\n            self._give_back()\n        self.interactor.exit()",
+     "        self.interactor.exit()\n        if not self.suspended:\n            self._give_back()",
      "C05", "caught"),
 ]
 
